@@ -131,13 +131,62 @@ class Ref:
         return out
 
 
+class Multi:
+    """three independent objects (C15); the single-tree operations act on the selected one"""
+    def __init__(self): self.rs = [Ref(), Ref(), Ref()]; self.cur = 0; self.wv = 4; self.wf = 8
+
+    @property
+    def r(self): return self.rs[self.cur]
+
+    def ser_bytes(self, r):
+        import struct
+        vfmt = {2: '<h', 4: '<i', 8: '<q'}[self.wv]; ffmt = {0: None, 4: '<f', 8: '<d'}[self.wf]
+        kids = {}
+        for s_ in r.c: kids.setdefault(s_[:-1], []).append(s_)
+        def rec(prefix):
+            ch = sorted(kids.get(prefix, []))
+            out = struct.pack(vfmt, len(ch))
+            for c in ch:
+                out += struct.pack(vfmt, c[-1])
+                if ffmt: out += struct.pack(ffmt, float(r.c[c]))
+            for c in ch:
+                out += rec(c) if c in kids else struct.pack(vfmt, 0)
+            return out
+        return rec(())
+
+    def slot_op(self, o, a):
+        """returns the expected line(s) for a multi-object operation, or None if `o` is not one"""
+        rs = self.rs
+        if o == 'sel': self.cur = a[0]; return ['sel']
+        if o == 'widths': self.wv, self.wf = a; return ['widths']
+        if o in ('copy', 'cassign'): rs[a[1]] = rs[a[0]].copy(); return [o]
+        if o in ('mctor', 'massign'):
+            x = rs[a[0]].copy(); rs[a[0]] = Ref(); rs[a[1]] = x; return [o + ' src-empty=1']
+        if o == 'swap': rs[a[0]], rs[a[1]] = rs[a[1]], rs[a[0]]; return ['swap']
+        if o == 'destroy': rs[a[0]] = Ref(); return ['destroy']
+        if o == 'eq': return ['eq %d' % (rs[a[0]].c == rs[a[1]].c)]
+        if o == 'ser':
+            bts = self.ser_bytes(self.r); n = len(self.r.c)
+            assert len(bts) == self.wv * (2 * n + 1) + self.wf * n
+            return ['ser %d %s' % (len(bts), bts.hex())]
+        if o == 'deser':
+            if a[2] == 0: rs[a[0]] = self.r.copy(); return ['deser ok']
+            rs[a[0]] = Ref(); return ['deser invalid_argument']
+        if o == 'text': rs[a[0]] = self.r.copy(); return ['text']
+        if o == 'thr': return ['thr agree=1']
+        return None
+
+
 def simulate(case):
     """expected output lines of a history (None for lines the oracle does not predict)"""
-    r = Ref(); out = []
+    m = Multi(); out = []
     for line in case:
         t = line.split(); o = t[0]
         a = [int(x) for x in t[1:]]
-        if o == 'univ': out.append('univ')
+        r = m.r
+        so = m.slot_op(o, a)
+        if so is not None: out += so
+        elif o == 'univ': out.append('univ')
         elif o == 'ins': out.append(r.ins(a[0], a[1:]))
         elif o == 'insf': out.append(r.insf(a[0], a[1:]))
         elif o == 'batch': out.append(r.batch(a[0], a[1:]))
@@ -180,10 +229,14 @@ def valid_contig(case): return valid(case, True)
 
 def valid(case, contig=False):
     """does the history respect the documented preconditions (used when shrinking a failing history)"""
-    r = Ref()
+    m = Multi()
     try:
         for line in case:
             t = line.split(); o = t[0]; a = [int(x) for x in t[1:]]
+            if o in ('sel', 'copy', 'cassign', 'mctor', 'massign', 'swap', 'destroy', 'eq', 'deser', 'text') and any(not 0 <= x <= 2 for x in (a[:2] if o in ('copy', 'cassign', 'mctor', 'massign', 'swap', 'eq') else a[:1])): return False
+            if o in ('mctor', 'massign') and a[0] == a[1]: return False
+            if m.slot_op(o, a) is not None: continue
+            r = m.r
             if o == 'rmmax':
                 s = tuple(sorted(a))
                 if s not in r.c or not r.is_maximal(s): return False
@@ -192,7 +245,7 @@ def valid(case, contig=False):
                 if any(s[:i] + s[i + 1:] not in r.c for i in range(len(s))) and len(s) > 1: return False
             if o in ('assign', 'star') and tuple(sorted(a[1:] if o == 'assign' else a)) not in r.c: return False
             simulate_one(r, line)
-            if contig and not contiguous(r): return False
+            if contig and not all(contiguous(x) for x in m.rs): return False
         return True
     except Exception:
         return False
